@@ -208,6 +208,10 @@ def c04(v):
             continue
         b, f, T, kids, finite = sched_facts(v, s)
         p, t, kind = f[0], f[1], f[2]
+        if kind == "rraise" and f[3] == "orch:" + s:
+            # the orchestration of s itself failed (a message it could not print): its run does not report, it fails;
+            # for its enclosing scheduler it is a job that raised this very exception object
+            continue
         pure = bool(v.info[s].get("pure"))
         critical = v.info[s]["crit"] and not pure
         crit_raised = [c["name"] for c in kids if c["crit"] and v.raised(c["name"], p)]
@@ -241,7 +245,7 @@ def c04(v):
                             # a critical child scheduler's TimeoutError may bubble
                             if not any(v.exc_of(c) == x for c in crit_raised):
                                 V.append("C04 critical scheduler %s raised TimeoutError without an expiry of its own or of a critical child" % s)
-                    elif x.startswith("job:"):
+                    elif x.startswith("job:") or x.startswith("orch:"):
                         if not any(v.exc_of(c) == x for c in crit_raised):
                             V.append("C04 critical scheduler %s raised %s which is not the exception object of one of its critical jobs" % (s, x))
                     else:
